@@ -1,6 +1,7 @@
 package main
 
 import (
+	"strings"
 	"fmt"
 	"go/token"
 	"go/types"
@@ -205,6 +206,8 @@ func (e *Enc) newAllocRef(hint string) T {
 	e.allocN++
 	c := e.s.Const(fmt.Sprintf("alloc:%s", hint), SInt)
 	e.s.Assume(Gt(c, IntLit(0)))
+	// a fresh object is not the interior (field) of another object
+	e.s.Assume(Eq(App(SInt, e.s.DeclareFun("fldowner", []string{SInt}, SInt), c), IntLit(0)))
 	// distinct from earlier allocations and from pointer-typed parameters
 	for _, o := range e.allocRefs {
 		e.s.Assume(Not(Eq(c, o)))
@@ -224,6 +227,9 @@ func (e *Enc) alloc(fr *Frame, x *ssa.Alloc) {
 		pv := &PtrV{A: Addr{Kind: ARef, Base: ref}, Elem: et}
 		e.store(fr.curState, pv.A, et, e.zero(et))
 		e.setVal(fr, x, pv)
+		if strings.HasPrefix(e.escaped[x], "boxed address") {
+			e.published = append(e.published, publishedLoc{ref: ref, typ: et})
+		}
 		return
 	}
 	id, ok := e.cells[x]
@@ -307,7 +313,8 @@ func (e *Enc) wrap(fr *Frame, exact T, t types.Type, at ssa.Instruction, alt str
 			return exact
 		}
 	}
-	if e.fc != nil && e.fc.NoWrap {
+	_, isConv := at.(*ssa.Convert)
+	if e.fc != nil && e.fc.NoWrap && !(isConv && e.fc.NoWrapArith) {
 		anchor := e.srcTextOr(at.Pos(), alt)
 		e.addObligation("nowrap", anchor, fr.curReach, in, "result of "+anchor+" fits its type "+t.String())
 		e.s.Assume(Imp(fr.curReach, in))
